@@ -217,6 +217,26 @@ def field_coverage(repo: Repo, R: Report) -> None:
     R.check(ok, r, SEM, "compute_pipeline_config_id", "hash of all (uuid, semantic id) pairs", "config id does not cover every pair", cpc.lineno)
 
 
+def _values_under_key(fn: ast.AST, key: str) -> List[ast.AST]:
+    """Every expression written under the constant mapping key *key* in *fn*: `m[key] = v`, `{..., key: v}`
+    (also with `**` spreads), `dict(m, key=v)`, `m.update({key: v})` / `m.update(key=v)`, `m.setdefault(key, v)`."""
+    out: List[ast.AST] = []
+    for n in ast.walk(fn):
+        if isinstance(n, ast.Assign):
+            if any(isinstance(t, ast.Subscript) and isinstance(t.slice, ast.Constant) and t.slice.value == key for t in n.targets):
+                out.append(n.value)
+        elif isinstance(n, ast.Dict):
+            for k, v in zip(n.keys, n.values):
+                if isinstance(k, ast.Constant) and k.value == key:
+                    out.append(v)
+        elif isinstance(n, ast.Call):
+            if call_attr(n) in ("dict", "update"):
+                out.extend(k.value for k in n.keywords if k.arg == key)
+            if call_attr(n) == "setdefault" and len(n.args) == 2 and isinstance(n.args[0], ast.Constant) and n.args[0].value == key:
+                out.append(n.args[1])
+    return out
+
+
 def sweep_metadata(repo: Repo, R: Report) -> None:
     r = R.rule("C05-D2-sweep-definition-in-metadata", "generated sweep classes carry no identity in processor_ref; the whole sweep definition (wrapped processor, expression signatures, variable domains, mode, broadcast, collection, dependencies) is in the preprocessor metadata, and the same metadata object enriches the canonical nodes on the inspection and the run-time path; a string processor reference is hashed as written", 12)
     smod = repo.module(SWEEP)
@@ -262,12 +282,17 @@ def sweep_metadata(repo: Repo, R: Report) -> None:
     if ok:
         R.ok(r, GRAPH, "_canonical_node", f"processor_ref: string kept as written, class -> module.qualname ({len(defs)} defs)", "", cn.lineno)
     # same metadata object on both paths
-    bip = repo.func(BUILDER, "build_inspection_payload")
+    bip = nfunc(repo, BUILDER, "build_inspection_payload", keep=("_build_sweep_payload",))
     insp_p = next((a.arg for a in bip.args.kwonlyargs + bip.args.args if a.arg == "inspection"), "inspection")
-    stores = [n for n in ast.walk(bip) if isinstance(n, ast.Assign) and any(isinstance(t, ast.Subscript) and isinstance(t.slice, ast.Constant) and t.slice.value == "preprocessor_metadata" for t in n.targets)]
+    # only what is written into the node mappings handed to compute_pipeline_semantic_id counts (the display payload
+    # legitimately carries the sanitised view); found by role through c04_rest.hashed_node_fields
+    from .c04_rest import hashed_node_fields
+
+    site = (hashed_node_fields(bip) or {}).get("preprocessor_metadata")
+    stores = _values_under_key(site, "preprocessor_metadata") if site is not None else []
     ok = bool(stores)
-    for s in stores:
-        txt = slice_text(bip, s.value, 3)
+    for v in stores:
+        txt = slice_text(bip, v, 3)
         ok = ok and f"{insp_p}.nodes" in txt and ".preprocessor_metadata" in txt and "_build_sweep_payload" not in txt
     R.check(ok, r, BUILDER, "build_inspection_payload", "enriched['preprocessor_metadata'] = inspection.nodes[i].preprocessor_metadata", "the inspection path enriches the canonical nodes with something other than the processor's full preprocessor metadata (e.g. a sanitised view without element_ref): its semantic id ignores part of the sweep definition and differs from the run-time one", bip.lineno)
     bpi = repo.func(BUILDER, "build_pipeline_inspection")
@@ -275,8 +300,11 @@ def sweep_metadata(repo: Repo, R: Report) -> None:
     ok = bool(st2) and all(".get('preprocessor')" in slice_text(bpi, s.value, 3) for s in st2)
     R.check(ok, r, BUILDER, "build_pipeline_inspection", "node_inspection.preprocessor_metadata = processor metadata['preprocessor']", "inspection records a different preprocessor metadata than the processor publishes", bpi.lineno)
     ex = repo.func(ORCH, "SemantivaOrchestrator.execute")
-    st3 = [n for n in ast.walk(ex) if isinstance(n, ast.Assign) and any(isinstance(t, ast.Subscript) and isinstance(t.slice, ast.Constant) and t.slice.value == "preprocessor_metadata" for t in n.targets)]
-    ok = bool(st3) and all(".get('preprocessor')" in slice_text(ex, s.value, 3) for s in st3)
+    exn = nfunc(repo, ORCH, "SemantivaOrchestrator.execute")
+    site3 = (hashed_node_fields(exn) or {}).get("preprocessor_metadata")
+    st3 = _values_under_key(site3, "preprocessor_metadata") if site3 is not None else []
+    ex = exn if st3 else ex
+    ok = bool(st3) and all(".get('preprocessor')" in slice_text(ex, v, 3) for v in st3)
     R.check(ok, r, ORCH, "SemantivaOrchestrator.execute", "canonical node enriched with processor metadata['preprocessor']", "the run-time path enriches canonical nodes with something other than the processor's preprocessor metadata", ex.lineno)
     # the metadata is read fresh from each processor class (not memoised under a key generated classes share)
     gm = [c for c in ast.walk(ex) if isinstance(c, ast.Call) and call_attr(c) == "get_metadata"]
